@@ -6,7 +6,9 @@
  * symbols are kept global by checks/c16.py: keep_globals) and prints one line
  *
  *   X snap recent=<t> exit=<0|1> c0=<alive>,<commpending>,<used>,<conc>,<passopen>,<pqmin|-> c1=... jobs=<one digit per slot: refs|-> \
- *          pqfail=<dt|-> pqdone=<dt|-> trig=<0|1> tododir=<0|1> next=<t> fc=<0|1> ct=<t> timeout=<tv_sec|-1> rfds=<list|-> wfds=<list|->
+ *          pqfail=<dt|-> pqdone=<dt|-> trig=<0|1> tready=<0|1> tododir=<0|1> next=<t> fc=<0|1> ct=<t> timeout=<tv_sec|-1> rfds=<list|-> wfds=<list|->
+ *
+ * tready = the trigger FIFO is readable at this moment (it stays readable until the daemon itself closes it), so this select will report it.
  *
  * descriptor lists: d<c> = chanfdin[c], c<c> = chanfdout[c], t = the trigger FIFO, x<fd> = anything else (only fds < nfds count).
  * The structs mirror the (anonymous / file-local) struct types of qmail-send.c; a layout change shows up as DISAGREE. */
@@ -49,7 +51,8 @@ static void c16_snapshot(simproc *p, int nfds, fd_set *r, fd_set *w, struct time
   c16_fmt_min(m, sizeof m, &pqfail); n += snprintf(b + n, sizeof b - n, " pqfail=%s", m);
   c16_fmt_min(m, sizeof m, &pqdone); n += snprintf(b + n, sizeof b - n, " pqdone=%s", m);
   int tfd = -1; for (int fd = 0; fd < SIM_MAXFD; fd++) if (p->fd[fd].kind == SFD_FIFO_R) tfd = fd;
-  n += snprintf(b + n, sizeof b - n, " trig=%d tododir=%d next=%ld fc=%d ct=%ld timeout=%ld", tfd >= 0, tododir ? 1 : 0, (long)nexttodorun,
+  int tready = tfd >= 0 && W.ino[p->fd[tfd].ino].buffered > 0;
+  n += snprintf(b + n, sizeof b - n, " trig=%d tready=%d tododir=%d next=%ld fc=%d ct=%ld timeout=%ld", tfd >= 0, tready, tododir ? 1 : 0, (long)nexttodorun,
                 flagcleanup ? 1 : 0, (long)cleanuptime, tv ? (long)tv->tv_sec : -1L);
   for (int pass_ = 0; pass_ < 2; pass_++) {
     fd_set *s = pass_ ? w : r; int any = 0;
